@@ -286,6 +286,89 @@ def r07e(ctx):
         ctx.report("R07e", h, h.node, "NamedRange.name checks", "the named-range name setter no longer rejects forbidden characters and cell-address-shaped names")
 
 
+def r07f(ctx):
+    """A column declaration inserted by position lands before the first row.
+
+    Outside the vault functions (which place an item next to items of the same kind) a
+    `table:table-column` enters the table through `self.insert(column, position=P)`.  With
+    the invariant "all column declarations precede all rows", P keeps it iff P is the
+    constant 0 (before everything) or the child index of an existing column declaration,
+    plus at most one.  Every definition of P reaching the call is classified; anything else
+    (a length, the index of a row, …) cannot be shown to precede the first row.
+    """
+    from ..paths import reaching_defs
+    repo = ctx.repo
+    ctx.rule("R07f", "a column declaration inserted by position goes to child 0 or next to an existing column declaration", floor=2)
+    t = repo.cls("Table")
+    n_inst = 0
+
+    def is_column_expr(e, f):
+        if isinstance(e, ast.Call) and call_name(e) == "Column":
+            return True
+        if isinstance(e, ast.Attribute) and e.attr == "clone":
+            return is_column_expr(e.value, f)
+        if isinstance(e, ast.Name):
+            for a in f.node.args.args + f.node.args.kwonlyargs:
+                if a.arg == e.id and a.annotation is not None and "Column" in ast.unparse(a.annotation):
+                    return True
+            return any(isinstance(a, ast.Assign) and any(isinstance(tg, ast.Name) and tg.id == e.id for tg in a.targets) and is_column_expr(a.value, f)
+                       for a in walk_no_nested(f.node))
+        return False
+
+    def col_element(name, f):
+        """the local holds an existing column declaration: every definition is a lookup through a column scheme / column getter"""
+        defs = [a for a in walk_no_nested(f.node) if isinstance(a, ast.Assign) and any(isinstance(tg, ast.Name) and tg.id == name for tg in a.targets)]
+        def colcall(v):
+            return isinstance(v, ast.Call) and ("column" in (call_name(v) or "").lower() or any("column" in ast.unparse(a).lower() for a in v.args))
+        return bool(defs) and all(colcall(a.value) for a in defs)
+
+    def classify(v, f):
+        val = repo.fold(v, f.module)
+        if val == 0 and val is not False:
+            return "child 0"
+        base, off = v, 0
+        if isinstance(v, ast.BinOp) and isinstance(v.op, ast.Add) and isinstance(v.right, ast.Constant) and v.right.value in (0, 1):
+            base, off = v.left, v.right.value
+        elif isinstance(v, ast.BinOp) and isinstance(v.op, ast.Add) and isinstance(v.left, ast.Constant) and v.left.value in (0, 1):
+            base, off = v.right, v.left.value
+        if isinstance(base, ast.Call) and call_name(base) == "index" and is_self_attr(base.func) and base.args and isinstance(base.args[0], ast.Name) \
+                and col_element(base.args[0].id, f):
+            return f"index of the column declaration `{base.args[0].id}` + {off}"
+        return None
+
+    for name, fs in t.methods.items():
+        f = fs[0]
+        for c in walk_no_nested(f.node):
+            if not (isinstance(c, ast.Call) and call_name(c) == "insert" and is_self_attr(c.func) and c.args and is_column_expr(c.args[0], f)):
+                continue
+            pos = get_arg(c, 1, "position")
+            n_inst += 1
+            kinds, bad = [], []
+            if isinstance(pos, ast.Name):
+                cfg = cfg_of(f)
+                rd = reaching_defs(cfg, pos.id)
+                for d in rd.get(node_of(cfg, c).id, ()):
+                    dn = cfg.nodes[d] if cfg.nodes[d].id == d else [x for x in cfg.nodes if x.id == d][0]
+                    st = dn.stmt
+                    k = classify(st.value, f) if isinstance(st, ast.Assign) else None
+                    (kinds if k else bad).append((st, k))
+            elif pos is not None:
+                k = classify(pos, f)
+                (kinds if k else bad).append((c, k))
+            else:
+                bad.append((c, None))
+            ok = not bad
+            ctx.instance("R07f", f"{f.file}:{f.ident}", f"{norm(c, 50)}: position is {sorted({k for _, k in kinds})}" + (f"; not shown before the first row: {[norm(b, 40) if b is not None else 'parameter/unbound' for b, _ in bad]}" if bad else ""),
+                         ok=ok, nontrivial=True, line=c.lineno)
+            if not ok:
+                b = bad[0][0]
+                ctx.report("R07f", f, b if b is not None else c, f"{norm(c, 50)} with position from `{norm(b, 50) if b is not None else '?'}`",
+                           f"Table.{name} inserts a column declaration at a position that is neither child 0 nor next to an existing column declaration: when the table already "
+                           f"has rows (and no column at that place), the table:table-column lands after table:table-row elements")
+    if n_inst == 0:
+        raise AnalysisError("R07f: no positional insertion of a column declaration found in Table")
+
+
 def run(ctx):
     tom = run_tom(ctx.repo)
     r07a(ctx)
@@ -293,6 +376,7 @@ def run(ctx):
     r07c(ctx)
     r07d(ctx)
     r07e(ctx)
+    r07f(ctx)
 
 
 from ..selftest import Seed, unparse_seed  # noqa: E402
@@ -301,6 +385,10 @@ _T = "src/odfdo/table.py"
 _R = "src/odfdo/row.py"
 _C = "src/odfdo/cell.py"
 SEEDS = [
+    Seed("first column appended after the last child", "fault", _T, "        if not self._cmap:\n            position = 0\n", "        if not self._cmap:\n            position = len(self.children)\n", "R07f"),
+    Seed("column appended two places after the last column", "fault", _T, "            position = self.index(last_column) + 1\n", "            position = self.index(last_column) + 2\n", "R07f"),
+    Seed("first row declares its columns at the end", "fault", _T, "            self.insert(Column(repeated=repeated), position=0)", "            self.insert(Column(repeated=repeated), position=len(self.children))", "R07f"),
+    Seed("append_column: offset written first", "neutral", _T, "            position = self.index(last_column) + 1\n", "            position = 1 + self.index(last_column)\n"),
     Seed("Row._set_repeated writes 1", "fault", _R, "        if repeated is None or repeated < 2:\n            with contextlib.suppress(KeyError):\n                self.del_attribute(\"table:number-rows-repeated\")",
          "        if repeated is None or repeated < 1:\n            with contextlib.suppress(KeyError):\n                self.del_attribute(\"table:number-rows-repeated\")", "R07a"),
     Seed("Cell._set_repeated loses its guard", "fault", _C,
